@@ -1206,6 +1206,24 @@ class Executor:
 
     def e_BoolOp(self, e, env):
         is_and = isinstance(e.op, ast.And)
+        if getattr(self, "pure_mode", False):
+            # element expression of a comprehension over a symbolic sequence: no path split; all operands must be plain truth values (comparisons), for which
+            # short-circuit evaluation and the logical connective agree
+            ts = []
+            n_pc = len(self.pc)
+            try:
+                for sub in e.values:
+                    t = self.truth(self.eval(sub, env))     # evaluated under "the earlier operands did not decide the result" (what short-circuiting guarantees)
+                    ts.append(t)
+                    if not isinstance(t, bool):
+                        self.pc.append(t if is_and else z3.Not(t))
+                        self.pc_tags.append("path")
+            finally:
+                del self.pc[n_pc:]
+                del self.pc_tags[n_pc:]
+            if all(isinstance(t, bool) or (is_z3(t) and z3.is_bool(t)) for t in ts):
+                return self.and_(ts) if is_and else (True if any(t is True for t in ts) else (z3.Or(*[t for t in ts if t is not False]) if any(t is not False for t in ts) else False))
+            raise OutOfSubset("boolean operator over non-boolean operands inside a symbolic comprehension", e)
         last = None
         for i, sub in enumerate(e.values):
             v = self.eval(sub, env)
@@ -1591,6 +1609,8 @@ class Executor:
         if V.is_z3(body) and not z3.is_arith(body) and not z3.is_bool(body) and body.sort().kind() == z3.Z3_UNINTERPRETED_SORT:
             # element of an uninterpreted sort (result of an abstract callable on the element): the new list is the array lambda of these terms
             return Seq("list", None, z3.simplify(n), z3.Lambda([k], body))
+        if V.is_z3(body) and z3.is_bool(body):
+            body = V.bool_to_int(body)      # a list of truth values: stored as 0 / 1 like python's bool-as-int
         if not V.is_num(body):
             raise OutOfSubset("non-numeric element expression in a comprehension over a symbolic sequence", e)
         body = V.to_z3(V.bool_to_int(body))
